@@ -3,15 +3,15 @@ from propdefs.common import *
 PROP = {
     "bin": "c20",
     "coq_targets": ["theories/Arch/C20Check"],
-    "n": {"quick": 78, "thorough": 78},
+    "n": {"quick": 85, "thorough": 85},
     "theorems": ["cc_ok_sound", "cases_are_cc_ok", "coverage_sound"],
-    "rule": "finite configuration property: one case per (architecture, clause) for the 7 architectures x 11 clauses, plus one "
+    "rule": "finite configuration property: one case per (architecture, clause) for the 7 architectures x 12 clauses, plus one "
             "coverage case; the tables are regenerated from the code on every run; every case is non-trivial; distinct by (architecture, clause)",
     "trusted_base": [KERNEL, HARNESS_TB,
-                     "Arch/CcSpec.v: hand transcription of the psABI documents (i386, x86-64, MIPS o32, PPC32 SVR4, AAPCS64)",
+                     "Arch/CcSpec.v: hand transcription of the psABI documents (i386, x86-64, MIPS o32, PPC32 SVR4, AAPCS64) and the per-architecture allow-list a_extras of non-register scalars the lifters may emit",
                      "the guarded hook verif_registers() returns the translators' register tables; the lifted-instruction corpus is a sample of each translator's output"],
     "assumptions": ["the ABI facts of Arch/CcSpec.v are the documents'", "scalars of lifted code are sampled from a fixed corpus of instructions per architecture"],
-    "partial": ["clause 'the translator emits ...' is checked against the translator's register table (complete) and against a sample of lifted instructions (not all encodings)"],
+    "partial": ["clause 'the translator emits ...' is checked against the translator's register table (complete) and against a sample of lifted instructions that exercises every table row with a lifted encoding and the push/pop/call/ret/frame instructions (not all encodings; amd64 xmm16-31, PPC cr0-7, AArch64 z/p rows are never lifted)"],
     "level_text": "Unbounded Coq theorem that the executable checker cc_ok implies the statement of C20 (a Prop over the dumped tables and the ABI transcription), "
                   "plus, on every run, the in-kernel evaluation of cc_ok clause by clause on the tables regenerated from the code (finite domain: 7 architectures).",
     "level_note": "Trusted: Coq kernel + vm_compute; the harness dump/pretty-printer; the ABI transcription CcSpec.v; the register-table hook.",
